@@ -366,6 +366,8 @@ where
     CS: BbsCiphersuite,
     CS::Expander: for<'a> ExpandMsg<'a>,
 {
+     #[cfg(zkryptium_verif)]
+     crate::verif_hooks::tick("phase:core_commit_verify");
     let api_id = api_id.unwrap_or(b"");
     let M = commitment_proof.m_cap.len();
 
